@@ -2007,19 +2007,25 @@ sexp sexp_string_utf8_index_ref (sexp ctx, sexp self, sexp_sint_t n, sexp str, s
 }
 
 sexp sexp_read_utf8_char (sexp ctx, sexp port, int i) {
+  int c1 = 0, c2 = 0, c3 = 0;
   if (i >= 0x80) {
     if ((i < 0xC0) || (i > 0xF7)) {
       return sexp_user_exception(ctx, NULL, "read-char: invalid utf8 byte", sexp_make_fixnum(i));
     } else if (i < 0xE0) {
-      i = ((i&0x3F)<<6) + (sexp_read_char(ctx, port)&0x3F);
+      c1 = sexp_read_char(ctx, port);
+      i = ((i&0x3F)<<6) + (c1&0x3F);
     } else if (i < 0xF0) {
-      i = ((i&0x1F)<<12) + ((sexp_read_char(ctx, port)&0x3F)<<6);
-      i += sexp_read_char(ctx, port)&0x3F;
+      c1 = sexp_read_char(ctx, port);
+      c2 = (c1 == EOF) ? EOF : sexp_read_char(ctx, port);
+      i = ((i&0x1F)<<12) + ((c1&0x3F)<<6) + (c2&0x3F);
     } else {
-      i = ((i&0x0F)<<18) + ((sexp_read_char(ctx, port)&0x3F)<<12);
-      i += (sexp_read_char(ctx, port)&0x3F)<<6;
-      i += sexp_read_char(ctx, port)&0x3F;
+      c1 = sexp_read_char(ctx, port);
+      c2 = (c1 == EOF) ? EOF : sexp_read_char(ctx, port);
+      c3 = (c2 == EOF) ? EOF : sexp_read_char(ctx, port);
+      i = ((i&0x0F)<<18) + ((c1&0x3F)<<12) + ((c2&0x3F)<<6) + (c3&0x3F);
     }
+    if (c1 == EOF || c2 == EOF || c3 == EOF)
+      return sexp_user_exception(ctx, NULL, "read-char: incomplete utf8 sequence", SEXP_NULL);
   }
   return sexp_make_character(i);
 }
